@@ -106,6 +106,14 @@ pub fn families(tier: Tier) -> Vec<Family> {
     }
     fams.push(Family { name: "f:extremes_one_hot".into(), movie: one.clone(), alphabet: fal, max_len: 3, filter: Some(at_most_one_extreme) });
 
+    // (f2) large payloads inside a chunk that stays open while the other track's chunks are flushed: two tracks, short
+    // durations on track 1 (its chunk stays open), samples of 1 byte, 64 KiB and 1 MiB, and on track 2 one short and one
+    // chunk-closing duration; every history up to 5 — chunk payloads of 0..5 MiB interleaved with the other track's flushes
+    let mf2 = MovieSpec::new(1000, vec![TrackSpec::new(Kind::Aac, 48000), TrackSpec::new(Kind::Aac, 1000)]);
+    let mut f2al = ops_product(1, &[1, 1 << 16, 1 << 20], &[1024], &[0], &[true]);
+    f2al.extend(ops_product(2, &[2], &[100, 1000], &[0], &[true]));
+    fams.push(Family { name: "f2:large_payloads_in_open_chunk_two_tracks".into(), movie: mf2, alphabet: f2al, max_len: 5, filter: None });
+
     // (g) writes the muxer refuses on a KNOWN track: with track timescale 1 and movie timescale 2^32-1 the track duration
     // in movie units leaves 64 bits after two maximal durations; refused and accepted writes interleave on two tracks
     let mg = MovieSpec::new(u32::MAX, vec![TrackSpec::new(Kind::Avc, 1), TrackSpec::new(Kind::Aac, 48000)]);
